@@ -84,6 +84,19 @@ pub fn catalogue(full: bool) -> Vec<Built> {
             ]));
             stmts.push(sdmodel::ast::print(call(var("rec"), vec![int(levels)])));
             out.push(Built{prog: Prog::new(stmts), label: format!("{fname} under direct recursion x{levels}"), depth: levels as usize + 1});
+            // The same with three different self-call sites taken in turn
+            // (by the level modulo 3): consecutive frames of one function
+            // with different call positions.
+            let mut stmts = prelude();
+            let down = || call(var("walk"), vec![bin(Op::Sub, var("lv"), int(1))]);
+            stmts.push(fn_decl("walk", vec![var("lv")], false, vec![
+                if_(bin(Op::Lte, var("lv"), int(0)), vec![expr_stmt(f.clone())], None),
+                if_(bin(Op::Eq, bin(Op::Mod, var("lv"), int(3)), int(0)), vec![ret(bin(Op::Sum, int(1), down()))], None),
+                if_(bin(Op::Eq, bin(Op::Mod, var("lv"), int(3)), int(1)), vec![declare(var("got"), down()), ret(var("got"))], None),
+                ret(list(vec![down()])),
+            ]));
+            stmts.push(sdmodel::ast::print(call(var("walk"), vec![int(levels + 1)])));
+            out.push(Built{prog: Prog::new(stmts), label: format!("{fname} under recursion through three call sites x{}", levels + 1), depth: levels as usize + 2});
         }
     }
     // `return` at the top level (depth 0 only).
